@@ -1,9 +1,69 @@
--- line-protocol handler of property C14 (stub: nothing modelled yet)
+-- line-protocol handler of property C14: the partition arithmetic of the concurrent routines
+-- (Winter/Model/Parallel.lean) for the `part …` lines of harness/src/bin/c14.rs; every other line is `-`
+-- (results of the two builds are compared with each other by the harness, not with the model).
 import Winter.Drv.Util
+import Winter.Model.Parallel
 
 namespace Drv.C14
+open Model.Parallel
 
-def handle (_toks : List String) : String := "-"
+def pairs (l : List (Nat × Nat)) : String :=
+  " ".intercalate (l.map (fun p => s!"{p.1}:{p.2}"))
+
+def batchLine (len : Nat) (min : Option Nat) (t : Nat) : String :=
+  match batchIterMut len min t with
+  | none => "panic"
+  | some l => pairs l
+
+def fragLine (len fragLen : Nat) : String :=
+  match traceFragments len fragLen with
+  | none => "panic"
+  | some l => " ".intercalate (l.map (fun p => s!"{p.1}:{p.2.1}:{p.2.2}"))
+
+/-- maximal runs `k, k-1, k-2, …` of a list of written nodes as (lowest node, length), in list order — the harness
+    recovers the same runs from the observed order of the writes of one task -/
+def descRuns : List Nat → List (Nat × Nat) → List (Nat × Nat)
+  | [], acc => acc.reverse
+  | k :: rest, [] => descRuns rest [(k, 1)]
+  | k :: rest, (lo, len) :: acc => if k + 1 = lo then descRuns rest ((k, len + 1) :: acc) else descRuns rest ((k, 1) :: (lo, len) :: acc)
+
+def merkleLine (leaves t : Nat) : String :=
+  let n := leaves / 2
+  let S := merkleSubtrees n t
+  let tasks := (List.range S).map (fun i => descRuns (merkleTaskWrites n S i) [])
+  let written := (List.range S).foldl (fun acc i => acc + (merkleTaskWrites n S i).length) 0
+  let merges := n + written + (merkleTip S).length
+  let tasksTxt :=
+    if n ≥ 4 * S then
+      ";".intercalate (tasks.map (fun lv => ",".intercalate (lv.map (fun p => s!"{p.1}+{p.2}"))))
+    else "-"
+  let tip := merkleTip S
+  let tipTxt := if tip.isEmpty then "-" else ",".intercalate (tip.map toString)
+  s!"S={S} merges={merges} tasks={tasksTxt} tip={tipTxt}"
+
+def isPow2Nat (n : Nat) : Bool := Model.Fft.isPow2 n
+
+def handle (toks : List String) : String :=
+  match toks with
+  | ["part", "batch", len, min, t] =>
+    match len.toNat?, t.toNat? with
+    | some len, some t =>
+      if len > 2 ^ 26 ∨ t = 0 ∨ t > 4096 then "-"
+      else if min == "-" then batchLine len none t
+      else match min.toNat? with
+        | some m => if m > 2 ^ 26 then "-" else batchLine len (some m) t
+        | none => "-"
+    | _, _ => "-"
+  | ["part", "frag", len, fl, t] =>
+    match len.toNat?, fl.toNat?, t.toNat? with
+    | some len, some fl, some t => if len > 2 ^ 26 ∨ fl > 2 ^ 26 ∨ t = 0 ∨ t > 4096 then "-" else fragLine len fl
+    | _, _, _ => "-"
+  | ["part", "merkle", leaves, t] =>
+    match leaves.toNat?, t.toNat? with
+    | some leaves, some t =>
+      if leaves < 2 ∨ leaves > 2 ^ 26 ∨ !isPow2Nat leaves ∨ t = 0 ∨ t > 4096 then "-" else merkleLine leaves t
+    | _, _ => "-"
+  | _ => "-"
 
 end Drv.C14
 
